@@ -4,6 +4,9 @@
 set -u
 cd /repo || exit 2
 export CARGO_NET_OFFLINE=true
+# the suite binds fixed ports: never run two suites at once on this machine
+exec 9>/tmp/nun-db-baseline.lock
+flock 9
 unset RUSTFLAGS
 rm -f target/nextest/pb/junit.xml
 cargo nextest run --workspace --no-fail-fast --tool-config-file pb:/verif/tools/nextest.toml --profile pb --test-threads 8 --offline >/tmp/baseline_off.log 2>&1
